@@ -254,6 +254,21 @@ class ScalarArr(Value):
         return ScalarArr(B.scalar_binop(interp, op, a, b), self.shape)
 
 
+class TreeDefTok(Value):
+    """jax.tree.structure(container): (treedef token, number of leaves); `==` compares both"""
+
+    def __init__(self, treedef, n):
+        self.treedef, self.n = treedef, n
+
+    def sym_eq(self, other):
+        if not isinstance(other, TreeDefTok):
+            return False
+        return z_and(z_eq(self.treedef, other.treedef), z_eq(self.n, other.n))
+
+    def py_eq(self, interp, other):
+        return self.sym_eq(other)
+
+
 class AlgTheory(Theory):
     """method calls / isinstance on Op terms, construction of the core classes, list-surgery lemma instances"""
 
@@ -275,6 +290,7 @@ class AlgTheory(Theory):
         self.externals['jax.tree.map'] = self.tree_map
         self.externals['jax.tree.leaves'] = self.tree_leaves
         self.externals['jax.tree.all'] = self.tree_all
+        self.externals['jax.tree.structure'] = self.tree_structure
         self.equals_handlers.append(self.struct_eq)
         self.identical_handlers.append(self.op_identical)
         from props import C08
@@ -359,6 +375,12 @@ class AlgTheory(Theory):
                 run.assume(lem_struct_cong(None, pa, ra_, nn))
                 run.assume(lem_struct_cong(None, pa, la_, nn))
         return res
+
+    def tree_structure(self, interp, tree, is_leaf=None):
+        """jax.tree.structure of a flat container: its treedef token together with its number of leaves"""
+        if isinstance(tree, B.PyList):
+            return TreeDefTok(getattr(tree, 'treedef', 0), tree.as_seq().length)
+        raise Unsupported(f'tree.structure of {tree!r} in the alg facet')
 
     def tree_all(self, interp, tree):
         if isinstance(tree, B.PyList):
